@@ -126,6 +126,16 @@ func treeInvocation(r *rand.Rand, root *drive.Cmd, version bool, mutateP int) (a
 				}
 			}
 			walk(root)
+			// ... and near misses of this level's own sub-command names: another letter case, a prefix, one more letter
+			for _, k := range cur.Kids {
+				for _, al := range k.Aliases {
+					for _, nm := range []string{strings.ToUpper(al), al[:len(al)-1], al + "x", strings.ToUpper(al[:1]) + al[1:]} {
+						if nm != "" && isAliasOfKid(cur, nm) == nil {
+							foreign = append(foreign, nm)
+						}
+					}
+				}
+			}
 			var cand []int
 			for i, tok := range seg {
 				if !strings.HasPrefix(tok, "-") && (i == 0 || !strings.HasPrefix(seg[i-1], "-") || strings.Contains(seg[i-1], "=")) {
